@@ -326,6 +326,9 @@ class ECDSAKey(PKey):
         else:
             self._got_bad_key_format_id(pkformat)
 
+        if not isinstance(key, ec.EllipticCurvePrivateKey):
+            # e.g. some other kind of key inside an "EC PRIVATE KEY" frame
+            raise SSHException("Not an EC private key")
         self.signing_key = key
         self.verifying_key = key.public_key()
         curve_class = key.curve.__class__
